@@ -106,6 +106,9 @@ ROUTES = [("GET", "/storage/v1/version", None), ("POST", "/storage/v1/immutable/
           ("GET", "/storage/v1/mutable/{si}/shares", None), ("POST", "/storage/v1/mutable/{si}/{sh}/corrupt", "cbor-reason")]
 AUTH = ["missing", "wrong", "malformed", "duplicated", "nonutf8", "correct", "wrong-case", "prefix-only"]
 XAUTH = ["missing", "wrong-names", "bad-base64", "wrong-length", "duplicated", "other-upload", "correct", "empty-value", "extra-secret"]
+# the second line of defence (right swissnum, wrong per-object secret) is as important as the first: sample it often
+AUTH_W = AUTH + ["correct"] * 4
+XAUTH_W = XAUTH + ["other-upload"] * 3 + ["correct"]
 
 
 def gen_auth(seed, tier):
@@ -115,7 +118,7 @@ def gen_auth(seed, tier):
     for i in range(ch.randint(W, "nops", 4, 24)):
         k = ch.weighted(W, ("k", i), [("attack", 10), ("legit-write", 2), ("legit-upload-start", 1), ("legit-finish", 1), ("legit-read", 1)])
         if k == "attack":
-            ops.append(["attack", ch.randrange(W, ("route", i), len(ROUTES)), ch.pick(W, ("auth", i), AUTH), ch.pick(W, ("xauth", i), XAUTH),
+            ops.append(["attack", ch.pick(W, ("route", i), list(range(len(ROUTES))) + [8, 8, 1, 2]), ch.pick(W, ("auth", i), AUTH_W), ch.pick(W, ("xauth", i), XAUTH_W),
                         ch.randrange(W, ("si", i), 3), ch.randrange(W, ("sh", i), 3), ch.randrange(W, ("x", i), 1 << 30)])
         elif k == "legit-upload-start":
             ops.append(["legit-upload-start", ch.randrange(W, ("si", i), 3), ch.randint(W, ("nsh", i), 1, 2), ch.pick(W, ("size", i), [10, 100, 300])])
@@ -197,7 +200,7 @@ def exec_auth(case):
             live_up = sorted(kx for kx, u in uploads.items() if u["written"] < u["size"])
             if live_up and (method == "PATCH" or path.endswith("/abort")) and x % 10 < 7:
                 si_i, sh = live_up[x % len(live_up)]        # aim at an upload that is really in progress
-            target_si = mut_si if ("mutable" in path and mut_si is not None and x % 2) else si_of(si_i)
+            target_si = mut_si if ("mutable" in path and mut_si is not None and x % 4) else si_of(si_i)
             path = path.format(si=si_b2a(target_si).decode("ascii"), sh=sh)
             hdrs = Headers()
             good_auth = swissnum_auth_header(SWISS)
@@ -234,7 +237,8 @@ def exec_auth(case):
                 xa("upload-secret", other_secret)
                 xa("upload-secret", own_upload_secret)
             elif xauth == "other-upload":
-                xa("upload-secret", other_secret)
+                if "mutable" not in path:
+                    xa("upload-secret", other_secret)      # (a surplus secret would get the mutable request refused for that alone)
                 if method == "POST" and "immutable" in path:
                     xa("lease-renew-secret", good_secret("renew", 1))
                     xa("lease-cancel-secret", good_secret("cancel", 1))
@@ -270,7 +274,10 @@ def exec_auth(case):
                 body = cbor2.dumps({"reason": "attacker says so"})
                 hdrs.addRawHeader("Content-Type", "application/cbor")
             elif bodykind == "cbor-rtw":
-                body = cbor2.dumps({"test-write-vectors": {0: {"test": [], "write": [{"offset": 0, "data": b"EVIL" * 4}], "new-length": None}}, "read-vector": [{"offset": 0, "size": 64}]})
+                # aim at the slot's existing share, at share numbers the slot does not hold yet, or at a mix
+                targets = [[0], [0], [7], [2, 3], [0, 7], [1]][(x // 7) % 6]
+                body = cbor2.dumps({"test-write-vectors": {t_: {"test": [], "write": [{"offset": 0, "data": b"EVIL" * 4}], "new-length": None} for t_ in targets},
+                                    "read-vector": [{"offset": 0, "size": 64}]})
                 hdrs.addRawHeader("Content-Type", "application/cbor")
             elif bodykind == "range":
                 body = b"E" * 10
